@@ -57,6 +57,14 @@ fn shape_set(v: usize, k: i64) -> Vec<SShape> {
         2 => vec![s(0, 0, SGeom::Rect((10, 5), (40, 25)), None)],
         3 => vec![s(1, 1, SGeom::Rect((40, 25), (10, 5)), Some("Rev")), s(1, 1, SGeom::Poly(l_shape((0, 100))), None), s(1, 1, SGeom::Path(vec![(0, 200), (40, 200)], 2), Some("Rev"))],
         4 => vec![s(0, 1, SGeom::Poly(vec![(0, 0), (0, 50), (20, 50), (20, 20), (60, 20), (60, 0)]), Some("cw")), s(0, 0, SGeom::Rect((-40, -25), (-10, -5)), Some("neg"))],
+        // polygons of exactly four vertices: an axis-parallel rectangle listed counter-clockwise and clockwise (they
+        // stay polygons), a parallelogram, a right trapezoid
+        6 => vec![
+            s(0, 0, SGeom::Poly(vec![(0, 0), (20, 0), (20, 10), (0, 10)]), Some("ccw4")),
+            s(0, 0, SGeom::Poly(vec![(100, 0), (100, 10), (120, 10), (120, 0)]), None),
+            s(1, 0, SGeom::Poly(vec![(0, 100), (20, 100), (30, 110), (10, 110)]), None),
+            s(1, 1, SGeom::Poly(vec![(0, 200), (30, 200), (30, 210), (10, 210)]), Some("trap")),
+        ],
         // rectangles given by every choice of opposite corners (lower-left/upper-right, the reverse, upper-left/lower-right,
         // lower-right/upper-left), at positive and negative coordinates, plus degenerate ones
         _ => vec![
@@ -133,8 +141,8 @@ fn gen(four: bool, c: &mut Chooser) -> Case {
                 let first = lay.insts[0].clone();
                 lay.insts.push(SInst { name: "again".into(), loc: (first.loc.0 + 1, first.loc.1 + 1), reflect: false, angle: Some(0.0), ..first });
             }
-            let sv = c.cost(6, "shape-set");
-            tags.push(["shapes:interleaved-all-kinds", "shapes:none", "shapes:single-rect", "shapes:one-layer-purpose", "shapes:cw-polygon+negative-rect", "shapes:rects-by-every-corner-pair"][sv]);
+            let sv = c.cost(7, "shape-set");
+            tags.push(["shapes:interleaved-all-kinds", "shapes:none", "shapes:single-rect", "shapes:one-layer-purpose", "shapes:cw-polygon+negative-rect", "shapes:rects-by-every-corner-pair", "shapes:four-vertex-polygons"][sv]);
             lay.shapes = shape_set(sv, i as i64);
             let an = c.cost(3, "annotations");
             tags.push(["annotations:1", "annotations:0", "annotations:2"][an]);
@@ -491,7 +499,7 @@ impl CaseDriver for C14 {
     fn describe(&self, tier: Tier) -> Describe {
         Describe {
             rule: format!(
-                "{} cells forming EVERY DAG (every subset of the edges i -> j, i < j, each edge an instance) listed in EVERY order; the last cell with layout / layout+abstract / abstract-only views or no view at all (a placeholder cell) (all free); costed (deviation bound {}): units Nano/Micro/Angstrom, abstract view on the other cells, each instance's orientation (8) and offset (incl. 2e9), a second placement with angle Some(0), the layout's shape set (default: 7 shapes of all three kinds with and without nets interleaved over 2 layers x 2 purposes; none; one rectangle; all on one layer/purpose with a reversed-corner rectangle; clockwise polygon + negative rectangle; rectangles given by every pair of opposite corners, a degenerate rectangle, an explicitly closed polygon and a path returning to its start), annotations 1/0/2, abstract ports 1/0/2 (second port on two layers) or one port over two layers holding each of the 9 pairs of shape kinds (rectangle, polygon, path), blockages on 1/0/2 layers or the same 9 kind pairs, outline rectangle / L, layout and abstract views named differently from their cell. Each case is checked raw->proto->raw (fresh and original Layers) and proto->raw->proto (message built independently by the harness). Non-trivial = has an instance or an abstract.",
+                "{} cells forming EVERY DAG (every subset of the edges i -> j, i < j, each edge an instance) listed in EVERY order; the last cell with layout / layout+abstract / abstract-only views or no view at all (a placeholder cell) (all free); costed (deviation bound {}): units Nano/Micro/Angstrom, abstract view on the other cells, each instance's orientation (8) and offset (incl. 2e9), a second placement with angle Some(0), the layout's shape set (default: 7 shapes of all three kinds with and without nets interleaved over 2 layers x 2 purposes; none; one rectangle; all on one layer/purpose with a reversed-corner rectangle; clockwise polygon + negative rectangle; rectangles given by every pair of opposite corners, a degenerate rectangle, an explicitly closed polygon and a path returning to its start; four-vertex polygons: an axis-parallel rectangle in both windings, a parallelogram, a right trapezoid), annotations 1/0/2, abstract ports 1/0/2 (second port on two layers) or one port over two layers holding each of the 9 pairs of shape kinds (rectangle, polygon, path), blockages on 1/0/2 layers or the same 9 kind pairs, outline rectangle / L, layout and abstract views named differently from their cell. Each case is checked raw->proto->raw (fresh and original Layers) and proto->raw->proto (message built independently by the harness). Non-trivial = has an instance or an abstract.",
                 if self.four { "4".to_string() } else { "1..3".to_string() },
                 self.bound(tier)
             ),
@@ -543,7 +551,7 @@ impl CaseDriver for C14 {
             stats,
             &[
                 "cells:1", "cells:2", "cells:3", "views:layout", "views:layout+abstract", "views:abstract", "views:none", "dag:shared-dependency", "dag:chain", "order:not-dependencies-first-or-last", "shapes:interleaved-all-kinds", "shapes:none", "shapes:one-layer-purpose",
-                "shapes:cw-polygon+negative-rect", "shapes:rects-by-every-corner-pair", "annotations:0", "annotations:2", "ports:0", "ports:2-second-on-2-layers", "ports:kind-pair", "blockages:0", "blockages:2-layers", "blockages:kind-pair", "views:own-names", "inst:angle-Some(0)+second-placement",
+                "shapes:cw-polygon+negative-rect", "shapes:rects-by-every-corner-pair", "shapes:four-vertex-polygons", "annotations:0", "annotations:2", "ports:0", "ports:2-second-on-2-layers", "ports:kind-pair", "blockages:0", "blockages:2-layers", "blockages:kind-pair", "views:own-names", "inst:angle-Some(0)+second-placement",
             ],
         )?;
         require_outcomes(stats, &["ok"])
